@@ -26,6 +26,14 @@ def gen_cases(ctx):
     for n, cnt in ([(4, 60), (5, 40), (6, 30), (7, 10)] if not ctx.thorough() else [(5, 200), (6, 150), (7, 80), (8, 40), (10, 10)]):
         for _ in range(cnt):
             mk("apply", n, [rand_string(rng, n)], style=rng.choice(["generic", "normalised"]))
+    # registers of 10 (11) qubits - beyond every size threshold of the crate - with strings made mostly of Y factors (odd and even
+    # counts): a fused one-pass application must take every sign from the right index
+    for n, ny in ((10, 1), (10, 3), (10, 2)) + (((11, 5), (11, 3)) if ctx.thorough() else ()):
+        qs = rng.sample(range(n), ny + 2)
+        t = {"ops": [[q, "Y"] for q in qs[:ny]] + [[qs[ny], "X"], [qs[ny + 1], "Z"]], "coef": rand_coef(rng)}
+        rng.shuffle(t["ops"])
+        mk("apply", n, [t], style="normalised")
+        mk("normalised", n, [dict(t)], style="normalised")
     # factors outside the register
     for n in (1, 2, 3, 5):
         for bad in (n, n + 1, 64, 2**40):
@@ -84,6 +92,8 @@ def coq_term(case, res):
     rb = res.get("readback", [])
     if m == "apply":
         return "check_ps_apply %s %s %s %s %s" % (par, cq_ps(with_order(case["terms"], rb)[0]), n, v, r)
+    if m == "normalised":
+        return "check_ps_normalised %s %s %s %s %s" % (par, cq_ps(with_order(case["terms"], rb)[0]), n, v, r)
     if m == "sum_apply":
         return "check_sum_apply %s %s %s %s %s" % (par, cq_sum(with_order(case["terms"], rb)), n, v, r)
     if m == "expect":
@@ -100,8 +110,6 @@ def run_cases(ctx, cases):
     results = run_harness(cases, nproc=8)
     terms, idx = [], []
     for i, (c, r) in enumerate(zip(cases, results)):
-        if c["mode"] == "normalised":
-            continue
         if r["r"] in ("ok", "err", "panic"):
             terms.append(coq_term(c, r)); idx.append(i)
     outs = coq_eval(ctx, PAULI_IMPORTS, terms)
@@ -124,7 +132,6 @@ def judge(ctx, cases, results, codes):
                 if abs(nrm - 1) > 1e-12: ctx.violations.append(("apply_normalised returned a vector of squared norm %r" % nrm, {"case": c, "brief": b}))
             elif all(q < c["n"] for t in c["terms"] for q, _ in t["ops"]):
                 ctx.violations.append(("apply_normalised failed on a valid string: %s" % r.get("e"), {"case": c, "brief": b}))
-            continue
         if code is None: continue
         for bit, nm in ((1, "class_agrees"), (2, "model_close"), (4, "model_equal"), (8, "spec_close")):
             if code & bit: stats[nm] += 1
